@@ -366,6 +366,11 @@ def run(prog, tier, extra=None):
             n = call_name(t) or ""
             args = [ch7.origin(a) for a in t["args"]]
             if n.rsplit("::", 1)[-1] in ("for_each", "try_for_each", "all", "fold") and args and _hf7(args[0], "transaction::Transaction", side) and any(closure_calls_slip(a) for a in args[1:]):
+                thinned = [y[1].rsplit("::", 1)[-1] for y in _wk7(args[0]) if y[0] in ("call", "via") and y[1].rsplit("::", 1)[-1] in
+                           ("filter", "filter_map", "skip", "skip_while", "take", "take_while", "step_by", "find", "nth")]
+                if thinned:
+                    res.add(Finding(R7, "C03.tx-apply-total|%s|thinned" % side, "Transaction::on_chain_reorganization applies Slip::on_chain_reorganization only to the %s that pass `%s`: "
+                                    "some slips of a transaction are not (un)wound" % ("inputs" if side == "from" else "outputs", thinned[0]), tb.loc(bb)))
                 sites.add(bb)
             if n == "std::iter::Iterator::next" and args and _hf7(args[0], "transaction::Transaction", side):
                 lp = tb.innermost_loop_containing([bb])
